@@ -39,6 +39,7 @@ type params struct {
 	TimeJumps  bool    `json:"time_jumps"`
 	BlockSecs  int     `json:"block_secs"`  // block time is 1..BlockSecs seconds
 	LazyRemote bool    `json:"lazy_remote"` // the remote chain rarely executes batches (they time out and are re-built)
+	Calm       bool    `json:"calm"`        // no control jailings by real transactions: the snapshot keeps the composition the stake vector was made for
 }
 
 // stake vectors (ugrain). Every validator is below the 25 % jailing protection unless noted;
@@ -51,6 +52,29 @@ var stakeSets = [][]int64{
 	{40_000_000, 9_900_000, 10_100_000, 10_000_000, 10_000_000, 10_000_000, 10_000_000}, // one protected (>25 %)
 }
 
+// Two of every seven histories run on a stake vector made for the 10 % floor (edge.go): total
+// 10a + r with validators of a-1, a and a+1 shares; r runs through 0..9 over the case list (both
+// layouts together cover every r in every run of >= 42 histories), a through edgeUnits.
+const stakeSlots = 7
+
+func slotOf(seed int64, i int) int {
+	return int((seed%stakeSlots+stakeSlots)%stakeSlots+int64(i)) % stakeSlots
+}
+
+func isEdgeSlot(seed int64, i int) bool { return slotOf(seed, i) >= len(stakeSets) }
+
+func stakesFor(seed int64, i int) []int64 {
+	slot := slotOf(seed, i)
+	if slot < len(stakeSets) {
+		return stakeSets[slot]
+	}
+	layout := slot - len(stakeSets)
+	round := int64(i/stakeSlots) + (seed%10+10)%10
+	r := (round + int64(layout)*5) % 10
+	a := edgeUnits[(round+int64(layout))%int64(len(edgeUnits))]
+	return edgeStakes(layout, a, r)
+}
+
 func cases(tier string, seed int64) []fw.Case {
 	n, blocks := 45, 450
 	if tier == "thorough" {
@@ -60,7 +84,7 @@ func cases(tier string, seed int64) []fw.Case {
 	for i := 0; i < n; i++ {
 		s := seed*1_000_003 + int64(i)*7919 + 13
 		p := params{
-			Stakes:     stakeSets[(int(seed)+i)%len(stakeSets)],
+			Stakes:     stakesFor(seed, i),
 			NChains:    1 + (i+int(seed))%2,
 			NUsers:     3,
 			NSubs:      1 + (i/2)%2,
@@ -71,9 +95,7 @@ func cases(tier string, seed int64) []fw.Case {
 			BlockSecs:  []int{3, 6, 3, 10, 2}[i%5],
 			LazyRemote: i%5 == 1 || i%5 == 3,
 		}
-		if p.Stakes == nil {
-			p.Stakes = stakeSets[0]
-		}
+		p.Calm = isEdgeSlot(seed, i)
 		out = append(out, fw.MkCase(fmt.Sprintf("hist-%03d-%s", i, p.Focus), s, p))
 	}
 	return out
@@ -85,10 +107,12 @@ func init() {
 		Level: "exploration",
 		Rule: "Seed-determined list of histories (quick 45 x 450 blocks, thorough 200 x 900 blocks) of the real app: random bridge traffic " +
 			"(sends, batches built at h%50==0, gas estimates -> election, confirmations before/after the election, time-outs, re-builds, executed claims) " +
-			"and cross-chain messages (scheduler jobs) with drawn evidence plans (none / <10% / =10% / 10-35% / ~60% / >=2/3 split / undelivered / re-delivered: error report -> attestations -> transaction report -> attestations) aged until pruned. " +
+			"and cross-chain messages (scheduler jobs) with drawn evidence plans (none / <10% / =10% / 10-35% / ~60% / >=2/3 split / undelivered / re-delivered: error report -> attestations -> transaction report -> attestations / " +
+			"edge10: attesters chosen a few blocks before the prune from the snapshot the prune uses, so that their shares are one share below, exactly at or one share above a tenth of the total - " +
+			"two of every seven histories run on stake vectors with total 10a+r, r = 0..9, and validators of a-1, a, a+1 shares) aged until pruned. " +
 			"'evaluations' counts oracle decisions: one per bad-signature-evidence submission (fork or real tx; who may be jailed) and one per (newly jailed or attesting validator x pruned message). " +
 			"A distinct non-trivial case is a distinct (checkpoint stage, batch state at replay time, subject variant, submitter class, outcome) evidence tuple or a distinct " +
-			"(evidence-share bucket, delivery kind, shares attesting before/after a re-delivery, #attesters, #jailed) prune tuple.",
+			"(evidence-share bucket, position within one share of the 10% floor and 10*attested-total, delivery kind, shares attesting before/after a re-delivery, #attesters, #jailed) prune tuple.",
 		Assumptions: []string{
 			"'issued' = BytesToSign of a batch stored in skyway state at some block boundary (what pigeons are handed for signing); every batch state change is visible at a boundary because batches are built/re-estimated only in end blockers",
 			"genuine signatures are produced with the validators' registered keys over exactly those bytes, with the personal-message prefix pigeons use",
@@ -99,7 +123,7 @@ func init() {
 		Cases: cases,
 		Run:   run,
 		MinCounters: []string{"checkpoints_archived:built", "checkpoints_archived:re-estimated", "confirmations_archived", "replay_fork", "replay_realtx", "control_bad_sig_jailed", "prune_events", "prune_legit_jailings",
-			"prune_redelivered_evidence_before_and_after"},
+			"prune_redelivered_evidence_before_and_after", "prune_floor_edge:one-unit-below/total%10!=0"},
 		Workers:  16,
 		TimeoutS: 3600, // generous: the watchdog only guards against hangs (a 900-block history is ~25 s CPU)
 	})
